@@ -770,5 +770,48 @@ fn c11_roundtrip_hll6(a: &Array6) -> (b: Array6)
 }
 #[verifier::external_body] fn c11_unreachable6() -> Array6 requires false { unreachable!() }
 
+
+// =====================================================================================================================
+// REFINEMENT MAPPING for unit hll_dispatch (tools/linkprove.py).  hll_dispatch calls every per-mode parser through a stub
+//     T_accepts(payload, fields) ==> r is Ok,      r matches Ok(a) ==> T_parsed(a, payload, fields)
+// with T_accepts / T_parsed uninterpreted there.  Here they are DEFINED as the clauses this unit states for the real body
+// (one conjunct per tagged clause of `deserialize`; a rejection clause `c ==> r is Err` appears as `!c`), so the stub is implied.
+// =====================================================================================================================
+spec fn array8_accepts(p: Seq<u8>, lg_k: u8, compact: bool, ooo: bool) -> bool { valid_hll_arr_payload(p, pow2k(lg_k)) }
+spec fn array8_parsed(a: Array8, p: Seq<u8>, lg_k: u8, compact: bool, ooo: bool) -> bool {
+    &&& valid_hll_arr_payload(p, pow2k(lg_k))
+    &&& a.lg_config_k == lg_k
+    &&& a.bytes@ == dec_regs(p, pow2k(lg_k))
+    &&& a.num_zeros == dec_num_zeros(p)
+    &&& a.estimator.out_of_order == ooo
+    &&& f64_bits(a.estimator.kxq0) == dec_kxq0_bits(p) && f64_bits(a.estimator.kxq1) == dec_kxq1_bits(p)
+    &&& (!ooo ==> f64_bits(a.estimator.hip_accum) == dec_hip_bits(p))
+    &&& a.aview() == (HllArr { hip: if ooo { f64_bits(0.0f64) } else { dec_hip_bits(p) }, ..dec_hll_arr(p, lg_k, ooo, pow2k(lg_k)) })
+    &&& a.wf_shape() && a.wf_ooo_hip() && a.wf_num_zeros() && a.wf_reg_range()
+}
+spec fn array6_accepts(p: Seq<u8>, lg_k: u8, compact: bool, ooo: bool) -> bool { valid_hll_arr_payload(p, nreg6(lg_k)) }
+spec fn array6_parsed(a: Array6, p: Seq<u8>, lg_k: u8, compact: bool, ooo: bool) -> bool {
+    &&& valid_hll_arr_payload(p, nreg6(lg_k))
+    &&& a.lg_config_k == lg_k
+    &&& a.bytes@ == dec_regs(p, nreg6(lg_k))
+    &&& a.num_zeros == dec_num_zeros(p)
+    &&& a.estimator.out_of_order == ooo
+    &&& f64_bits(a.estimator.kxq0) == dec_kxq0_bits(p) && f64_bits(a.estimator.kxq1) == dec_kxq1_bits(p)
+    &&& (!ooo ==> f64_bits(a.estimator.hip_accum) == dec_hip_bits(p))
+    &&& a.aview() == (HllArr { hip: if ooo { f64_bits(0.0f64) } else { dec_hip_bits(p) }, ..dec_hll_arr(p, lg_k, ooo, nreg6(lg_k)) })
+    &&& a.wf_shape() && a.wf_ooo_hip() && a.wf_num_zeros()
+}
+
+// REFINEMENT MAPPING for unit hll_api (tools/linkprove.py): hll_api calls the per-mode writers through stubs
+//     requires self.ser_pre() [, lg_config_k == self.lg_config_k]     ensures self.image(lg_config_k, [hll_type,] r@)
+// with `ser_pre` / `image` uninterpreted there; here they are the precondition and the conjunction of the clauses proved for the real body.
+impl Array8 {
+    spec fn ser_pre(&self) -> bool { self.wf_shape() }
+    spec fn image(&self, lg: u8, b: Seq<u8>) -> bool { b == enc_hll8(self.aview()) && b.len() == 40 + pow2k(lg) }
+}
+impl Array6 {
+    spec fn ser_pre(&self) -> bool { self.wf_shape() }
+    spec fn image(&self, lg: u8, b: Seq<u8>) -> bool { b == enc_hll6(self.aview()) && b.len() == 40 + 3 * pow2k(lg) / 4 + 1 }
+}
 }
 fn main(){}
